@@ -1,10 +1,12 @@
 import logging
 import itertools
 import math
+import re
 import signal
 from enum import Enum
 from qbee import grammar
 from pyparsing.exceptions import ParseException
+from qbee.exceptions import SyntaxError as QbeeSyntaxError
 from .instrs import op_code_to_instr
 from .utils import format_number
 from .cell import CellType, CellValue, Reference
@@ -1275,7 +1277,33 @@ class QvmCpu:
             value = float(literal.eval())
         except ParseException:
             value = 0.0
+        except QbeeSyntaxError:
+            # a well-formed numeral that is not a valid literal of the
+            # type its form implies (99999999999 is not a LONG,
+            # 32768% not an INTEGER): VAL gives a DOUBLE whatever
+            # the form
+            value = self._numeral_as_double(string)
+        if math.isinf(value) or math.isnan(value):
+            # like any other result that does not fit its type
+            self.trap(TrapCode.INVALID_CELL_VALUE,
+                      type=CellType.DOUBLE, value=value)
         self.push(CellType.DOUBLE, value)
+
+    @staticmethod
+    def _numeral_as_double(string):
+        string = string.strip().lower()
+        m = re.match(r'&h([0-9a-f]+)|&o([0-7]+)', string)
+        if m:
+            digits, base = (m.group(1), 16) if m.group(1) else \
+                (m.group(2), 8)
+            return float(int(digits, base))
+        m = re.match(r'[+-]?(\d+(\.\d*)?|\.\d+)([ed][+-]?\d+)?', string)
+        if not m:
+            return 0.0
+        try:
+            return float(m.group(0).replace('d', 'e'))
+        except OverflowError:
+            return math.inf
 
     def _exec_sign(self):
         value = self.pop()
